@@ -73,6 +73,10 @@ def validate(c, d, timeout=3000):
     if r.violated:
         raise V.Inconclusive("TraceDB stopped: %s\n%s" % (r.violated, V.tail(r.output, 30)))
     lines = open(os.path.join(d, "trace.ndjson")).read().splitlines()
+    indom = sum(1 for l in r.output.splitlines() if l.startswith('<<"INDOM"'))
+    outdom = sum(1 for l in r.output.splitlines() if l.startswith('<<"OUTDOM"'))
+    c.add("calls_in_query_and_sort_domain", indom)
+    c.add("calls_outside_domain_selection_not_judged", outdom)
     return V.tlc_prints(r.output, "BAD"), lines
 
 
